@@ -131,6 +131,10 @@ func distKey(node enode.ID, id []byte) []byte {
 
 func beUint(b []byte) *uint256.Int { return new(uint256.Int).SetBytes(b) }
 
+// maxU256 is the harness's own 2^256-1 (the repository's storage.MaxDistance is a shared
+// pointer that the code under test could write through).
+var maxU256 = new(uint256.Int).SetAllOne()
+
 // inBubble runs f in a synctest bubble and absorbs the "deadlock" panic that
 // synctest raises when leaked library goroutines remain blocked after f returned.
 func inBubble(f func()) (panicMsg string) {
